@@ -200,6 +200,16 @@ def serial_task_discipline(c: Ctx, u: Unit, g, spawn: ast.Call, all_spawns: list
     return None
 
 
+def bind_defaults(u: Unit, env: dict) -> dict:
+    """Parameters the caller of an abstract evaluation does not know about (added later, with a default) take their literal default."""
+    a = u.node.args
+    pos = a.posonlyargs + a.args
+    for arg, d in list(zip(pos[len(pos) - len(a.defaults):], a.defaults)) + [(k, d) for k, d in zip(a.kwonlyargs, a.kw_defaults) if d is not None]:
+        if arg.arg not in env and isinstance(d, ast.Constant):
+            env[arg.arg] = d.value
+    return env
+
+
 def eq_atom(a: str, b: str) -> str:
     """Canonical text of the fact atom for `a == b` (operands sorted, as sa.facts.cmp_atom does)."""
     l, r = sorted([a, b])
